@@ -2,6 +2,7 @@ import RadixModel.Model.DecimalText
 import Mathlib.Tactic.Ring
 import Mathlib.Tactic.Linarith
 import Mathlib.Tactic.NormNum
+import Mathlib.Tactic.Positivity
 
 namespace Radix.DecimalText
 
@@ -496,6 +497,567 @@ theorem not_dot_of_digit {b : Nat} (h : IsDigit b) : b ≠ 46 := by unfold IsDig
 
 theorem dot_not_mem_of_allDigits {l : List Nat} (h : AllDigits l) : 46 ∉ l := by
   intro hm; exact not_dot_of_digit (h 46 hm) rfl
+
+
+
+/-! ### the numeral grammar and `fromStr` -/
+
+/-- optional sign prefix of a text -/
+def signPart : List Nat → List Nat
+  | [] => []
+  | c :: _ => if c = 45 ∨ c = 43 then [c] else []
+
+theorem sign_body (s : List Nat) : s = signPart s ++ intBody s := by
+  cases s with
+  | nil => rfl
+  | cons c r =>
+    simp only [signPart, intBody]
+    split <;> simp
+
+def IsSign (sign : List Nat) : Prop := sign = [] ∨ sign = [43] ∨ sign = [45]
+
+theorem isSign_signPart (s : List Nat) : IsSign (signPart s) := by
+  cases s with
+  | nil => exact Or.inl rfl
+  | cons c r =>
+    simp only [signPart]
+    split
+    · rename_i h
+      rcases h with h | h
+      · subst h; exact Or.inr (Or.inr rfl)
+      · subst h; exact Or.inr (Or.inl rfl)
+    · exact Or.inl rfl
+
+theorem signPart_neg (s : List Nat) : signPart s = [45] ↔ isNeg s := by
+  cases s with
+  | nil => simp [signPart, isNeg]
+  | cons c r =>
+    simp only [signPart, isNeg, List.head?_cons, Option.some.injEq]
+    split
+    · rename_i h; simp
+    · rename_i h; simp only [not_or] at h; simp [h.1]
+
+/-- exact value (in subunits of `10^-scale`) of the numeral `sign ip . f` -/
+def numVal (scale : Nat) (sign ip f : List Nat) : Int :=
+  (if sign = [45] then -1 else 1) *
+    ((dval ip : Int) * (10 : Int) ^ scale + (dval f : Int) * (10 : Int) ^ (scale - f.length))
+
+/-- `s` is an optionally signed decimal numeral with at most `scale` fractional digits and `v` is its
+exact value in subunits: `s = [+-]? ip ('.' f)?` with `ip`, `f` non-empty digit strings
+(`f = []` encodes the absence of a fractional part). -/
+def Denotes (scale : Nat) (s : List Nat) (v : Int) : Prop :=
+  ∃ sign ip f, IsSign sign ∧ ip ≠ [] ∧ AllDigits ip ∧ AllDigits f ∧ f.length ≤ scale ∧
+    ((f = [] ∧ s = sign ++ ip) ∨ (f ≠ [] ∧ s = sign ++ ip ++ 46 :: f)) ∧
+    v = numVal scale sign ip f
+
+theorem chkI_some {bits : Nat} {x y : Int} : chkI bits x = some y ↔ InRange bits x ∧ y = x := by
+  unfold chkI InRange
+  split
+  · rename_i h; simp [h, eq_comm]
+  · rename_i h; simp [h]
+
+theorem chkI_none {bits : Nat} {x : Int} : chkI bits x = none ↔ ¬ InRange bits x := by
+  unfold chkI InRange
+  split
+  · rename_i h; simp [h]
+  · rename_i h; simp [h]
+
+theorem all_isDigitByte {l : List Nat} : l.all isDigitByte = true ↔ AllDigits l := by
+  simp [List.all_eq_true, isDigitByte, AllDigits, IsDigit]
+
+theorem intBody_of_digits {l : List Nat} (h : AllDigits l) : intBody l = l ∧ ¬ isNeg l := by
+  cases l with
+  | nil => simp [intBody, isNeg]
+  | cons c r =>
+    have hc := (allDigits_cons.mp h).1
+    unfold IsDigit at hc
+    have h1 : ¬ (c = 45 ∨ c = 43) := by omega
+    have h2 : c ≠ 45 := by omega
+    have h3 : c ≠ 43 := by omega
+    simp [intBody, isNeg, h2, h3]
+
+section
+variable (bits scale : Nat) (hub : 10 ^ 19 ≤ 2 ^ bits) (hsc : 10 ^ scale < 2 ^ (bits - 1))
+include hub hsc
+
+omit hsc in
+theorem fromStr_sound (s : List Nat) (v : Int) (hlen : s.length < 2 ^ 32)
+    (h : fromStr bits scale s = .ok v) : Denotes scale s v ∧ InRange bits v := by
+  unfold fromStr at h
+  cases hsd : splitDot s with
+  | nil => exact absurd hsd (splitDot_ne_nil s)
+  | cons v0 tl =>
+    rw [hsd] at h
+    simp only at h
+    by_cases htl : tl.length > 1
+    · rw [if_pos htl] at h; cases h
+    · rw [if_neg htl] at h
+      cases hp : parseInt bits v0 with
+      | error e => rw [hp] at h; cases h
+      | ok ip =>
+        rw [hp] at h
+        simp only at h
+        obtain ⟨hbne, hball, hbv⟩ := (parseInt_ok_iff bits hub v0 ip).mp hp
+        cases hc : chkI bits (ip * (10 : Int) ^ scale) with
+        | none => rw [hc] at h; cases h
+        | some su =>
+          rw [hc] at h
+          simp only at h
+          obtain ⟨hsur, rfl⟩ := chkI_some.mp hc
+          cases tl with
+          | nil =>
+            simp only at h
+            cases h
+            obtain ⟨hs, _⟩ := splitDot_one hsd
+            refine ⟨⟨signPart v0, intBody v0, [], isSign_signPart _, hbne, hball, allDigits_nil,
+              Nat.zero_le _, Or.inl ⟨rfl, ?_⟩, ?_⟩, hsur⟩
+            · rw [hs]; exact sign_body v0
+            · unfold numVal
+              by_cases hn : isNeg v0
+              · rw [if_pos hn] at hbv
+                rw [if_pos ((signPart_neg v0).mpr hn), hbv.2]; simp [dval_nil]
+              · rw [if_neg hn] at hbv
+                have : ¬ signPart v0 = [45] := fun hh => hn ((signPart_neg v0).mp hh)
+                rw [if_neg this, hbv.2]; simp [dval_nil]
+          | cons v1 tl2 =>
+            have htl2 : tl2 = [] := by
+              cases tl2 with
+              | nil => rfl
+              | cons _ _ => simp at htl
+            subst htl2
+            obtain ⟨hs, hnd0, hnd1⟩ := splitDot_two hsd
+            simp only at h
+            have hv1len : v1.length < 2 ^ 32 := by
+              rw [hs] at hlen; simp at hlen; omega
+            rw [Nat.mod_eq_of_lt hv1len] at h
+            by_cases hsl : scale < v1.length
+            · rw [if_pos hsl] at h; cases h
+            · rw [if_neg hsl] at h
+              by_cases hdig : v1.all isDigitByte = true
+              · simp only [hdig, Bool.not_true, Bool.false_eq_true, if_false] at h
+                have hall1 := all_isDigitByte.mp hdig
+                obtain ⟨hb1, hn1⟩ := intBody_of_digits hall1
+                cases hp1 : parseInt bits v1 with
+                | error e => rw [hp1] at h; cases h
+                | ok fp =>
+                  rw [hp1] at h
+                  simp only at h
+                  obtain ⟨hfne, _, hfv⟩ := (parseInt_ok_iff bits hub v1 fp).mp hp1
+                  rw [hb1] at hfne hfv
+                  rw [if_neg hn1] at hfv
+                  obtain ⟨_, rfl⟩ := hfv
+                  cases hc1 : chkI bits ((10 : Int) ^ (scale - v1.length)) with
+                  | none => rw [hc1] at h; cases h
+                  | some p =>
+                    rw [hc1] at h
+                    simp only at h
+                    obtain ⟨_, rfl⟩ := chkI_some.mp hc1
+                    cases hc2 : chkI bits ((dval v1 : Int) * (10 : Int) ^ (scale - v1.length)) with
+                    | none => rw [hc2] at h; cases h
+                    | some fs =>
+                      rw [hc2] at h
+                      simp only at h
+                      obtain ⟨_, rfl⟩ := chkI_some.mp hc2
+                      have hden : ∀ w : Int, w = numVal scale (signPart v0) (intBody v0) v1 →
+                          Denotes scale s w := by
+                        intro w hw
+                        refine ⟨signPart v0, intBody v0, v1, isSign_signPart _, hbne, hball, hall1,
+                          by omega, Or.inr ⟨hfne, ?_⟩, hw⟩
+                        rw [hs, ← sign_body v0]
+                      by_cases hn : isNeg v0
+                      · have hbr : ip < 0 ∨ v0.head? = some 45 := Or.inr hn
+                        rw [if_pos hbr] at h
+                        rw [if_pos hn] at hbv
+                        cases hc3 : chkI bits (ip * (10 : Int) ^ scale - (dval v1 : Int) * (10 : Int) ^ (scale - v1.length)) with
+                        | none => rw [hc3] at h; cases h
+                        | some r =>
+                          rw [hc3] at h
+                          simp only at h
+                          cases h
+                          obtain ⟨hr, rfl⟩ := chkI_some.mp hc3
+                          refine ⟨hden _ ?_, hr⟩
+                          unfold numVal
+                          rw [(signPart_neg v0).mpr hn, hbv.2]
+                          simp only [if_true]; ring
+                      · have hbr : ¬ (ip < 0 ∨ v0.head? = some 45) := by
+                          rw [if_neg hn] at hbv
+                          intro hh
+                          rcases hh with hh | hh
+                          · rw [hbv.2] at hh; omega
+                          · exact hn hh
+                        rw [if_neg hbr] at h
+                        rw [if_neg hn] at hbv
+                        cases hc3 : chkI bits (ip * (10 : Int) ^ scale + (dval v1 : Int) * (10 : Int) ^ (scale - v1.length)) with
+                        | none => rw [hc3] at h; cases h
+                        | some r =>
+                          rw [hc3] at h
+                          simp only at h
+                          cases h
+                          obtain ⟨hr, rfl⟩ := chkI_some.mp hc3
+                          refine ⟨hden _ ?_, hr⟩
+                          unfold numVal
+                          have : ¬ signPart v0 = [45] := fun hh => hn ((signPart_neg v0).mp hh)
+                          rw [if_neg this, hbv.2]
+                          ring
+              · simp only [hdig, Bool.not_false, if_true] at h
+                cases h
+
+end
+
+
+
+theorem isSign_cases {sign ip : List Nat} (hs : IsSign sign) (_hne : ip ≠ []) (hall : AllDigits ip) :
+    intBody (sign ++ ip) = ip ∧ (isNeg (sign ++ ip) ↔ sign = [45]) ∧ 46 ∉ (sign ++ ip) := by
+  obtain ⟨hb, hn⟩ := intBody_of_digits hall
+  have hd := dot_not_mem_of_allDigits hall
+  rcases hs with rfl | rfl | rfl
+  · simp only [List.nil_append]
+    exact ⟨hb, ⟨fun h => absurd h hn, fun h => by cases h⟩, hd⟩
+  · refine ⟨by simp [intBody], ⟨fun h => by simp [isNeg] at h, fun h => by cases h⟩, ?_⟩
+    simp only [List.cons_append, List.nil_append, List.mem_cons, not_or]
+    exact ⟨by decide, hd⟩
+  · refine ⟨by simp [intBody], ⟨fun _ => rfl, fun _ => by simp [isNeg]⟩, ?_⟩
+    simp only [List.cons_append, List.nil_append, List.mem_cons, not_or]
+    exact ⟨by decide, hd⟩
+
+section
+variable (bits scale : Nat) (hub : 10 ^ 19 ≤ 2 ^ bits) (hsc : 10 ^ scale < 2 ^ (bits - 1))
+include hub hsc
+
+theorem fromStr_complete (hs32 : scale < 2 ^ 32) (s : List Nat) (v : Int)
+    (hd : Denotes scale s v) (hr : InRange bits v) : fromStr bits scale s = .ok v := by
+  obtain ⟨sign, ip, f, hsign, hipne, hipall, hfall, hflen, hshape, rfl⟩ := hd
+  obtain ⟨hbody, hneg, hnodot⟩ := isSign_cases hsign hipne hipall
+  -- arithmetic facts
+  have hP1 : (1 : Int) ≤ (10 : Int) ^ scale := by
+    have : (0:Int) < (10:Int) ^ scale := by positivity
+    omega
+  have hI0 : (0 : Int) ≤ (dval ip : Int) := Int.natCast_nonneg _
+  have hIP : (dval ip : Int) ≤ (dval ip : Int) * (10 : Int) ^ scale := le_mul_of_one_le_right hI0 hP1
+  have hFlt : dval f < 10 ^ f.length := dval_lt f hfall
+  have hpowsplit : (10:Int) ^ f.length * (10:Int) ^ (scale - f.length) = (10:Int) ^ scale := by
+    rw [← pow_add]; congr 1; omega
+  have hK0 : (0 : Int) < (10 : Int) ^ (scale - f.length) := by positivity
+  have hF0 : (0 : Int) ≤ (dval f : Int) * (10 : Int) ^ (scale - f.length) := by positivity
+  have hFP : (dval f : Int) * (10 : Int) ^ (scale - f.length) < (10 : Int) ^ scale := by
+    rw [← hpowsplit]
+    have : (dval f : Int) < (10:Int) ^ f.length := by exact_mod_cast hFlt
+    exact mul_lt_mul_of_pos_right this hK0
+  have hscI : (10 : Int) ^ scale < (2 : Int) ^ (bits - 1) := by exact_mod_cast hsc
+  have hKle : (10 : Int) ^ (scale - f.length) ≤ (10 : Int) ^ scale :=
+    pow_le_pow_right₀ (by norm_num) (by omega)
+  have hhalf : (2:Int) ^ (bits - 1) = ((2 ^ (bits - 1) : Nat) : Int) := by push_cast; rfl
+  unfold InRange numVal at hr
+  -- the integral part
+  obtain ⟨ipv, hipv, hpi, hsu⟩ : ∃ ipv : Int, ipv = (if sign = [45] then -(dval ip : Int) else (dval ip : Int)) ∧
+      parseInt bits (sign ++ ip) = .ok ipv ∧ InRange bits (ipv * (10 : Int) ^ scale) := by
+    refine ⟨_, rfl, ?_, ?_⟩
+    · rw [parseInt_ok_iff bits hub, hbody]
+      refine ⟨hipne, hipall, ?_⟩
+      by_cases hn : sign = [45]
+      · rw [if_pos (hneg.mpr hn), if_pos hn]
+        rw [if_pos hn] at hr
+        refine ⟨?_, rfl⟩
+        have : (dval ip : Int) ≤ (2:Int) ^ (bits - 1) := by linarith [hr.1]
+        rw [hhalf] at this; exact_mod_cast this
+      · rw [if_neg (fun h => hn (hneg.mp h)), if_neg hn]
+        rw [if_neg hn] at hr
+        refine ⟨?_, rfl⟩
+        have : (dval ip : Int) < (2:Int) ^ (bits - 1) := by linarith [hr.2]
+        rw [hhalf] at this; exact_mod_cast this
+    · unfold InRange
+      by_cases hn : sign = [45]
+      · rw [if_pos hn]; rw [if_pos hn] at hr
+        constructor <;> nlinarith [hr.1, hr.2]
+      · rw [if_neg hn]; rw [if_neg hn] at hr
+        constructor <;> nlinarith [hr.1, hr.2]
+  have hchk0 := chkI_some.mpr ⟨hsu, rfl⟩
+  unfold fromStr
+  rcases hshape with ⟨rfl, rfl⟩ | ⟨hfne, rfl⟩
+  · -- no fractional part
+    rw [splitDot_of_not_mem hnodot]
+    simp only [List.length_nil, gt_iff_lt, Nat.not_lt_zero, if_false, hpi, hchk0]
+    congr 1
+    rw [hipv]
+    unfold numVal
+    by_cases hn : sign = [45]
+    · simp [hn, dval_nil]
+    · simp [hn, dval_nil]
+  · -- with a fractional part
+    have hfd := dot_not_mem_of_allDigits hfall
+    rw [splitDot_append_dot f hnodot, splitDot_of_not_mem hfd]
+    obtain ⟨hfb, hfn⟩ := intBody_of_digits hfall
+    have hf32 : f.length % 2 ^ 32 = f.length := Nat.mod_eq_of_lt (by omega)
+    have hpf : parseInt bits f = .ok (dval f : Int) := by
+      rw [parseInt_ok_iff bits hub, hfb, if_neg hfn]
+      refine ⟨hfne, hfall, ?_, rfl⟩
+      have h1 : 10 ^ f.length ≤ 10 ^ scale := pow_ge_of_le hflen
+      omega
+    have hc1 : chkI bits ((10 : Int) ^ (scale - f.length)) = some ((10 : Int) ^ (scale - f.length)) := by
+      refine chkI_some.mpr ⟨?_, rfl⟩
+      unfold InRange; constructor <;> linarith
+    have hc2 : chkI bits ((dval f : Int) * (10 : Int) ^ (scale - f.length)) =
+        some ((dval f : Int) * (10 : Int) ^ (scale - f.length)) := by
+      refine chkI_some.mpr ⟨?_, rfl⟩
+      unfold InRange; constructor <;> linarith
+    have hall : f.all isDigitByte = true := all_isDigitByte.mpr hfall
+    simp only [List.length_cons, List.length_nil, gt_iff_lt, Nat.lt_irrefl, if_false, hpi, hchk0,
+      hf32, Nat.not_lt.mpr hflen, hall, Bool.not_true, Bool.false_eq_true, hpf, hc1, hc2, zero_add]
+    by_cases hn : sign = [45]
+    · have hbr : ipv < 0 ∨ (sign ++ ip).head? = some 45 := Or.inr (hneg.mpr hn)
+      rw [if_pos hbr]
+      rw [if_pos hn] at hr hipv
+      have : chkI bits (ipv * 10 ^ scale - ↑(dval f) * 10 ^ (scale - f.length)) =
+          some (ipv * 10 ^ scale - ↑(dval f) * 10 ^ (scale - f.length)) := by
+        refine chkI_some.mpr ⟨?_, rfl⟩
+        unfold InRange; rw [hipv]; constructor <;> linarith [hr.1, hr.2]
+      rw [this]
+      unfold numVal
+      rw [if_pos hn, hipv]
+      simp only [Res.ok.injEq]; ring
+    · have hbr : ¬ (ipv < 0 ∨ (sign ++ ip).head? = some 45) := by
+        rw [if_neg hn] at hipv
+        intro hh
+        rcases hh with hh | hh
+        · rw [hipv] at hh; omega
+        · exact hn (hneg.mp hh)
+      rw [if_neg hbr]
+      rw [if_neg hn] at hr hipv
+      have : chkI bits (ipv * 10 ^ scale + ↑(dval f) * 10 ^ (scale - f.length)) =
+          some (ipv * 10 ^ scale + ↑(dval f) * 10 ^ (scale - f.length)) := by
+        refine chkI_some.mpr ⟨?_, rfl⟩
+        unfold InRange; rw [hipv]; constructor <;> linarith [hr.1, hr.2]
+      rw [this]
+      unfold numVal
+      rw [if_neg hn, hipv]
+      simp only [Res.ok.injEq]; ring
+
+end
+
+
+
+/-! ### printing -/
+
+theorem isDigit_add {d : Nat} (h : d < 10) : IsDigit (48 + d) := by unfold IsDigit; omega
+
+theorem dig_add {d : Nat} : dig (48 + d) = d := by rw [dig_eq]; omega
+
+theorem dval_snoc (a : List Nat) (b : Nat) : dval (a ++ [b]) = dval a * 10 + dig b := by
+  rw [dval_append, dval_cons, dval_nil]; simp
+
+theorem natDigitsF_spec : ∀ (f n : Nat), n < f →
+    AllDigits (natDigitsF f n) ∧ dval (natDigitsF f n) = n ∧ natDigitsF f n ≠ [] := by
+  intro f
+  induction f with
+  | zero => intro n h; omega
+  | succ f ih =>
+    intro n h
+    unfold natDigitsF
+    by_cases h10 : n < 10
+    · rw [if_pos h10]
+      refine ⟨?_, ?_, by simp⟩
+      · intro b hb; simp only [List.mem_singleton] at hb; subst hb; exact isDigit_add h10
+      · rw [dval_cons, dval_nil, dig_add]; simp
+    · rw [if_neg h10]
+      obtain ⟨i1, i2, _⟩ := ih (n / 10) (by omega)
+      refine ⟨?_, ?_, by simp⟩
+      · rw [allDigits_append]
+        refine ⟨i1, ?_⟩
+        intro b hb; simp only [List.mem_singleton] at hb; subst hb
+        exact isDigit_add (Nat.mod_lt _ (by norm_num))
+      · rw [dval_snoc, i2, dig_add]; omega
+
+theorem natDigits_spec (n : Nat) :
+    AllDigits (natDigits n) ∧ dval (natDigits n) = n ∧ natDigits n ≠ [] :=
+  natDigitsF_spec (n + 1) n (by omega)
+
+theorem padDigits_spec : ∀ (w n : Nat),
+    (padDigits w n).length = w ∧ AllDigits (padDigits w n) ∧ dval (padDigits w n) = n % 10 ^ w := by
+  intro w
+  induction w with
+  | zero => intro n; simp [padDigits, allDigits_nil, dval_nil, Nat.mod_one]
+  | succ w ih =>
+    intro n
+    obtain ⟨i1, i2, i3⟩ := ih (n / 10)
+    unfold padDigits
+    refine ⟨by simp [i1], ?_, ?_⟩
+    · rw [allDigits_append]
+      refine ⟨i2, ?_⟩
+      intro b hb; simp only [List.mem_singleton] at hb; subst hb
+      exact isDigit_add (Nat.mod_lt _ (by norm_num))
+    · rw [dval_snoc, i3, dig_add]
+      have : n % 10 ^ (w + 1) = n % 10 + 10 * (n / 10 % 10 ^ w) := by
+        rw [pow_succ, mul_comm]; exact Nat.mod_mul
+      omega
+
+theorem dropWhile48 (l : List Nat) :
+    ∃ z, l = List.replicate z 48 ++ l.dropWhile (· == 48) := by
+  induction l with
+  | nil => exact ⟨0, rfl⟩
+  | cons a t ih =>
+    obtain ⟨z, hz⟩ := ih
+    by_cases ha : a = 48
+    · subst ha
+      refine ⟨z + 1, ?_⟩
+      simp only [List.dropWhile_cons, beq_self_eq_true, if_true, List.replicate_succ, List.cons_append]
+      rw [← hz]
+    · refine ⟨0, ?_⟩
+      simp [List.dropWhile_cons, ha]
+
+theorem trimEndZeros_spec (l : List Nat) :
+    ∃ z, l = trimEndZeros l ++ List.replicate z 48 := by
+  obtain ⟨z, hz⟩ := dropWhile48 l.reverse
+  refine ⟨z, ?_⟩
+  unfold trimEndZeros
+  have := congrArg List.reverse hz
+  rw [List.reverse_reverse, List.reverse_append, List.reverse_replicate] at this
+  exact this
+
+theorem dval_replicate_zero (z : Nat) : dval (List.replicate z 48) = 0 := by
+  induction z with
+  | zero => rfl
+  | succ z ih =>
+    rw [List.replicate_succ, dval_cons, ih, dig_eq]; simp
+
+theorem allDigits_replicate_zero (z : Nat) : AllDigits (List.replicate z 48) := by
+  intro b hb
+  rw [List.mem_replicate] at hb
+  rw [hb.2]; unfold IsDigit; omega
+
+/-- the printed fractional part: digits `f` with `dval f * 10^(scale - |f|) = R`, non-empty when `R ≠ 0` -/
+theorem frac_spec (scale R : Nat) (hR : R < 10 ^ scale) :
+    let f := trimEndZeros (padDigits scale R)
+    AllDigits f ∧ f.length ≤ scale ∧ dval f * 10 ^ (scale - f.length) = R ∧ (R ≠ 0 → f ≠ []) := by
+  intro f
+  obtain ⟨p1, p2, p3⟩ := padDigits_spec scale R
+  obtain ⟨z, hz⟩ := trimEndZeros_spec (padDigits scale R)
+  have hlen : f.length + z = scale := by
+    have := congrArg List.length hz
+    rw [List.length_append, List.length_replicate, p1] at this
+    exact this.symm
+  have hall : AllDigits f := by
+    rw [hz, allDigits_append] at p2; exact p2.1
+  have hv : dval f * 10 ^ z = R := by
+    have := p3
+    rw [hz, dval_append, dval_replicate_zero, List.length_replicate, Nat.mod_eq_of_lt hR] at this
+    simpa using this
+  refine ⟨hall, by omega, ?_, ?_⟩
+  · have : scale - f.length = z := by omega
+    rw [this]; exact hv
+  · intro hR0 hf
+    have : dval f = 0 := by rw [hf]; rfl
+    rw [this] at hv; omega
+
+theorem intDigits_eq (q : Int) :
+    intDigits q = (if q < 0 then [45] else []) ++ natDigits q.natAbs := by
+  unfold intDigits; split <;> simp
+
+/-- `toStr` in terms of the sign and the natural quotient / remainder of `|v|` -/
+theorem toStr_eq (scale : Nat) (v : Int) :
+    toStr scale v =
+      if v.natAbs % 10 ^ scale ≠ 0 then
+        (if v < 0 then [45] else []) ++ natDigits (v.natAbs / 10 ^ scale) ++ [46] ++
+          trimEndZeros (padDigits scale (v.natAbs % 10 ^ scale))
+      else (if v < 0 then [45] else []) ++ natDigits (v.natAbs / 10 ^ scale) := by
+  have hm : (0 : Int) < (10 : Int) ^ scale := by positivity
+  have hmN : 0 < 10 ^ scale := Nat.pow_pos (by norm_num)
+  have hcast : ((10 ^ scale : Nat) : Int) = (10 : Int) ^ scale := by push_cast; rfl
+  obtain ⟨n, hn | hn⟩ := Int.eq_nat_or_neg v
+  · -- v ≥ 0
+    subst hn
+    have hq : Int.tdiv (n : Int) ((10 : Int) ^ scale) = ((n / 10 ^ scale : Nat) : Int) := by
+      rw [← hcast, ← Int.ofNat_tdiv]
+    have hr : Int.tmod (n : Int) ((10 : Int) ^ scale) = ((n % 10 ^ scale : Nat) : Int) := by
+      rw [← hcast, ← Int.ofNat_tmod]
+    unfold toStr
+    simp only [hq, hr, Int.natAbs_natCast, intDigits_eq]
+    have h1 : ¬ ((n : Int) < 0) := not_lt.mpr (Int.natCast_nonneg _)
+    have h2 : ¬ (((n / 10 ^ scale : Nat) : Int) < 0) := not_lt.mpr (Int.natCast_nonneg _)
+    have h3 : ¬ (((n % 10 ^ scale : Nat) : Int) < 0) := not_lt.mpr (Int.natCast_nonneg _)
+    simp only [h1, h2, h3, false_and, if_false, List.nil_append, Int.natCast_eq_zero, ne_eq]
+  · -- v ≤ 0
+    subst hn
+    have hq : Int.tdiv (-(n : Int)) ((10 : Int) ^ scale) = -((n / 10 ^ scale : Nat) : Int) := by
+      rw [Int.neg_tdiv, ← hcast, ← Int.ofNat_tdiv]
+    have hr : Int.tmod (-(n : Int)) ((10 : Int) ^ scale) = -((n % 10 ^ scale : Nat) : Int) := by
+      rw [Int.neg_tmod, ← hcast, ← Int.ofNat_tmod]
+    unfold toStr
+    simp only [hq, hr, Int.natAbs_neg, Int.natAbs_natCast, intDigits_eq, neg_eq_zero,
+      Int.natCast_eq_zero, ne_eq]
+    have hdm := Nat.div_add_mod n (10 ^ scale)
+    generalize n / 10 ^ scale = Q at *
+    generalize n % 10 ^ scale = R at *
+    have hnegpos : ∀ k : Nat, (-(k : Int) < 0) ↔ k ≠ 0 := by intro k; omega
+    have hnegz : ∀ k : Nat, (-(k : Int) = 0) ↔ k = 0 := by intro k; omega
+    simp only [hnegpos]
+    by_cases hR : R = 0
+    · subst hR
+      by_cases hQ : Q = 0
+      · subst hQ
+        have : n = 0 := by simpa using hdm.symm
+        subst this; simp
+      · have hn0 : n ≠ 0 := by
+          intro h; subst h
+          have : 10 ^ scale * Q = 0 := by omega
+          rcases Nat.mul_eq_zero.mp this with h | h
+          · omega
+          · exact hQ h
+        simp [hQ, hn0]
+    · have hn0 : n ≠ 0 := by
+        intro h; subst h
+        have : R = 0 := by omega
+        exact hR this
+      by_cases hQ : Q = 0
+      · simp [hQ, hR, hn0]
+      · simp [hQ, hR, hn0]
+
+/-- the numeral built from a sign, a quotient and a remainder denotes `± n` -/
+theorem denotes_build (scale n : Nat) (sgn : List Nat) (hs : IsSign sgn) :
+    Denotes scale
+      (if n % 10 ^ scale ≠ 0 then
+        sgn ++ natDigits (n / 10 ^ scale) ++ [46] ++ trimEndZeros (padDigits scale (n % 10 ^ scale))
+       else sgn ++ natDigits (n / 10 ^ scale))
+      ((if sgn = [45] then -1 else 1) * (n : Int)) := by
+  have hmN : 0 < 10 ^ scale := Nat.pow_pos (by norm_num)
+  obtain ⟨q1, q2, q3⟩ := natDigits_spec (n / 10 ^ scale)
+  obtain ⟨f1, f2, f3, f4⟩ := frac_spec scale (n % 10 ^ scale) (Nat.mod_lt _ hmN)
+  have hdm := Nat.div_add_mod n (10 ^ scale)
+  generalize n / 10 ^ scale = Q at *
+  generalize n % 10 ^ scale = R at *
+  have hn : (n : Int) = (Q : Int) * (10 : Int) ^ scale + (R : Int) := by
+    rw [← hdm]; push_cast; ring
+  by_cases hR : R ≠ 0
+  · rw [if_pos hR]
+    refine ⟨sgn, natDigits Q, _, hs, q3, q1, f1, f2, Or.inr ⟨f4 hR, ?_⟩, ?_⟩
+    · simp [List.append_assoc]
+    · unfold numVal
+      rw [q2, hn]
+      congr 2
+      exact_mod_cast f3.symm
+  · rw [if_neg hR]
+    refine ⟨sgn, natDigits Q, [], hs, q3, q1, allDigits_nil, Nat.zero_le _, Or.inl ⟨rfl, rfl⟩, ?_⟩
+    unfold numVal
+    have : R = 0 := by omega
+    rw [q2, dval_nil, hn, this]; simp
+
+theorem toStr_denotes (scale : Nat) (v : Int) : Denotes scale (toStr scale v) v := by
+  rw [toStr_eq]
+  obtain ⟨n, hn | hn⟩ := Int.eq_nat_or_neg v
+  · subst hn
+    have h1 : ¬ ((n : Int) < 0) := not_lt.mpr (Int.natCast_nonneg _)
+    simp only [h1, if_false, Int.natAbs_natCast]
+    have := denotes_build scale n [] (Or.inl rfl)
+    simpa using this
+  · subst hn
+    simp only [Int.natAbs_neg, Int.natAbs_natCast]
+    by_cases h0 : n = 0
+    · subst h0
+      have := denotes_build scale 0 [] (Or.inl rfl)
+      simpa using this
+    · have h1 : -(n : Int) < 0 := by omega
+      simp only [h1, if_true]
+      have := denotes_build scale n [45] (Or.inr (Or.inr rfl))
+      simpa using this
 
 
 end Radix.DecimalText
